@@ -27,7 +27,7 @@ ENTRY = {
         "text": "Lean theorems over the executable model of the expression interpreter (evaluate_expr): with the null-strict kernels replaced by Kleene logic the model "
                 "equals the SQL reference semantics for every expression tree of the fragment and every row (C02_eval_refines, by induction on the nested expression type), a filter "
                 "keeps exactly the rows where the predicate is TRUE, NULL appears exactly where SQL says; ConstantFolding's boolean rewrites preserve the SQL value; "
-                "kernel-checked negation witnesses for the strict AND/OR/IN/BETWEEN of the unchanged tree and the exact syntactic class of predicates on which a filter cannot tell them apart. "
+                "kernel-checked negation witnesses for the strict AND/OR/IN/BETWEEN the tree used before fix e4c7c04 and the exact syntactic class of predicates on which a filter cannot tell them apart. "
                 "Tied to the code by correspondence on exhaustively enumerated connective trees x NULL patterns and random typed trees.",
         "design_ref": "DESIGN.md §6 C02",
         "level_note": "Trusted: Lean kernel; axioms propext/Classical.choice/Quot.sound; the hand-written model of evaluate_expr and of the Arrow kernels it calls (validated by "
